@@ -338,7 +338,7 @@ CheckOp(ev) ==
                       \cup (IF ev.ret # ev.ret3 THEN {V("C17.next-handle", <<"second load", ev.ret, ev.ret3>>)} ELSE {})
                       \cup {V("C17.codec", ev.codec[i]) : i \in {j \in DOMAIN ev.codec :
                                 ev.codec[j][2] # ev.codec[j][1] \/ ev.codec[j][3] # ev.codec[j][1]}}
-                      \cup (IF ev.binok # <<8>> THEN {V("C17.malformed-accepted", ev.binok)} ELSE {})
+                      \cup (IF ev.binok # <<8, 108>> THEN {V("C17.malformed-accepted", ev.binok)} ELSE {})
                       \* the loaded worlds report as many entities as are alive (C02), and are ordinary worlds:
                       \* reset, they hand out the handles of a fresh world and the zero entity is not alive
                       \cup (IF ev.used2 # Cardinality(Alive(w)) THEN {V("C02.count", <<"loaded world", ev.used2>>), V("C17.count", ev.used2)} ELSE {})
